@@ -1,6 +1,9 @@
 import Model.C10.Engine
-import Props.C02
-import Props.C03
+import Proofs.C02.Ecdsa
+import Proofs.C02.Der
+import Proofs.C03.Codec
+import Proofs.C03.BatchThm
+import Proofs.Common.LawfulY
 import Proofs.C08.Num
 /-
 C10 — the composed signature checker accepts what the model's `sign` produces (closure is then a theorem, not only
@@ -16,6 +19,30 @@ variable {α G : Type} [AddCommGroup G]
 theorem toNat_ofNat_lt (n : Nat) (h : n < 256) : (UInt8.ofNat n).toNat = n := by
   simp [UInt8.toNat_ofNat']; omega
 
+/-- ECDSA, the byte-level half (no group law): if `(r, s)` verifies for `Q` over the challenge of the digest THE ENGINE
+    recomputes and is low-s, then its DER serialization followed by the hash-type byte passes the composed
+    `CheckECDSASignature` for any octets `pk` that `parsePub` reads as `Q`. -/
+theorem verified_passes_checkECDSA (C : Crypto α) (cx : TxCtx) (sc : Bytes) (sv : SigVersion)
+    (ht : Nat) (hht : ht < 256) {r s : Int} (pk : Bytes) (Q : α) (hp : C.parsePub pk = some Q)
+    (hv : Ecdsa.verify C.o (Rfc6979.challenge C.o.n (engineEcdsaDigest C cx sc sv ht)) Q r s = true)
+    (hlow : s ≤ C.o.n / 2)
+    (der : Bytes) (hder : Der.serialize r s = .ok der) (hmax : der.length ≤ Gen.VarInt.MAX_SIZE) :
+    checkECDSA C cx (der ++ [UInt8.ofNat ht]) pk sc sv = .ok true := by
+  have hv' := hv
+  unfold Ecdsa.verify at hv'
+  simp only [Bool.and_eq_true, decide_eq_true_eq] at hv'
+  obtain ⟨⟨hr, hs⟩, _⟩ := hv'
+  have hr0 : ((r.toNat : Nat) : Int) = r := Int.toNat_of_nonneg (by omega)
+  have hs0 : ((s.toNat : Nat) : Int) = s := Int.toNat_of_nonneg (by omega)
+  have hder' : Der.serialize ((r.toNat : Nat) : Int) ((s.toNat : Nat) : Int) = .ok der := by rw [hr0, hs0]; exact hder
+  have hparse : Der.parseLax der = some (r.toNat, s.toNat) :=
+    Der.parse_serialize false r.toNat s.toNat der hder' hmax
+  have hlast : (lastByte (der ++ [UInt8.ofNat ht])).toNat = ht := by
+    rw [lastByte_append_singleton]; exact toNat_ofNat_lt ht hht
+  have hlow' : ¬ (s > C.o.n / 2) := by omega
+  unfold checkECDSA
+  simp [hp, hlast, hparse, hr0, hs0, hlow', hv]
+
 /-- ECDSA: a signature made by `_sign_recoverable_` (low-s) with the key `q` over the challenge of the digest THE ENGINE
     recomputes for (script code, sigversion, hash type), DER-serialized and followed by the hash-type byte, passes
     `CheckECDSASignature` of the composed checker for any SEC spelling `pk` of `q·G`. -/
@@ -26,36 +53,38 @@ theorem sign_passes_checkECDSA (C : Crypto α) (L : Lawful C.o G) (cx : TxCtx) (
       .ok (r, s, kid))
     (der : Bytes) (hder : Der.serialize r s = .ok der) (hmax : der.length ≤ Gen.VarInt.MAX_SIZE) :
     checkECDSA C cx (der ++ [UInt8.ofNat ht]) pk sc sv = .ok true := by
-  obtain ⟨hv, hlow⟩ := Props.C02.ecdsa_sign_verifies L hk Q hQ hsign
-  have hv' := hv
-  unfold Ecdsa.verify at hv'
-  simp only [Bool.and_eq_true, decide_eq_true_eq] at hv'
-  obtain ⟨⟨hr, hs⟩, _⟩ := hv'
-  have hr0 : ((r.toNat : Nat) : Int) = r := Int.toNat_of_nonneg (by omega)
-  have hs0 : ((s.toNat : Nat) : Int) = s := Int.toNat_of_nonneg (by omega)
-  have hder' : Der.serialize ((r.toNat : Nat) : Int) ((s.toNat : Nat) : Int) = .ok der := by rw [hr0, hs0]; exact hder
-  have hparse : Der.parseLax der = some (r.toNat, s.toNat) :=
-    Props.C02.der_parse_serialize false r.toNat s.toNat der hder' hmax
-  have hlast : (lastByte (der ++ [UInt8.ofNat ht])).toNat = ht := by
-    rw [lastByte_append_singleton]; exact toNat_ofNat_lt ht hht
-  have hlow' : ¬ (s > C.o.n / 2) := by have := hlow rfl; omega
-  unfold checkECDSA
-  simp [hp, hlast, hparse, hr0, hs0, hlow', hv]
+  obtain ⟨hv, hlow⟩ := Ecdsa.sign_verifies L hk Q hQ hsign
+  exact verified_passes_checkECDSA C cx sc sv ht hht pk Q hp hv (hlow rfl) der hder hmax
 
-/-- BIP340: a signature made by `ssa.sign_` with the key `q` over the BIP341 / BIP342 message THE ENGINE recomputes,
+/-- every answer of the composed `CheckECDSASignature` is a verdict (never a script error) -/
+theorem checkECDSA_total (C : Crypto α) (cx : TxCtx) (sig pk sc : Bytes) (sv : SigVersion) :
+    ∃ b, checkECDSA C cx sig pk sc sv = .ok b := by
+  unfold checkECDSA
+  split
+  · exact ⟨_, rfl⟩
+  · split
+    · exact ⟨_, rfl⟩
+    · split <;> exact ⟨_, rfl⟩
+
+theorem serialize_length (C : Crypto α) (hps : C.prm.pSize = 32) (hns : C.prm.nSize = 32) (sg : Schnorr.Sig)
+    (sig64 : Bytes) (hser : Schnorr.serialize C.o C.prm sg = .ok sig64) : sig64.length = 64 := by
+  obtain ⟨_, hb⟩ := Schnorr.serialize_ok C.prm sg sig64 hser
+  rw [hb, hps, hns]; simp [Schnorr.intBE]
+
+/-- BIP340, the byte-level half (no group law): a VALID, VERIFYING `Sig` for the x-only key `xQ` over the BIP341 / BIP342
+    message THE ENGINE recomputes,
     written as its 64 bytes followed by the hash-type byte unless that is SIGHASH_DEFAULT (`_taproot_signature`),
     passes `CheckSchnorrSignature` of the composed checker for the 32-byte x-only key of `q·G` -- the output key on the
     key path (`q` the tweaked private key, C12 `key_agreement`), the leaf key on the script path. -/
-theorem sign_passes_checkSchnorr (C : Crypto α) (L : Lawful C.o G) (hps : C.prm.pSize = 32) (hns : C.prm.nSize = 32)
+theorem verified_passes_checkSchnorr (C : Crypto α) (hps : C.prm.pSize = 32) (hns : C.prm.nSize = 32)
     (hp : C.o.p ≤ 2 ^ 256) (hn : C.o.n ≤ 2 ^ 256)
     (cx : TxCtx) (sv : SigVersion) (ht pos : Nat) (hht : ht < 256)
     (hdef : bip341Defined cx.tx cx.nIn cx.spent ht = true)
-    (fuel : Nat) (q : Int) (aux : Bytes) (sg : Schnorr.Sig)
-    (hsign : Schnorr.sign C.o C.prm fuel (engineTapDigest C cx sv ht pos) q aux = .ok sg)
+    (xQ : Int) (sg : Schnorr.Sig)
+    (hv : Schnorr.verify C.o C.prm (engineTapDigest C cx sv ht pos) xQ sg = true)
     (sig64 : Bytes) (hser : Schnorr.serialize C.o C.prm sg = .ok sig64)
-    (pubkey : Bytes) (hpk : ((ofBE pubkey : Nat) : Int) = C.o.x (C.o.mul q C.o.gen)) :
+    (pubkey : Bytes) (hpk : ((ofBE pubkey : Nat) : Int) = xQ) :
     checkSchnorr C cx (sig64 ++ (if ht = 0 then [] else [UInt8.ofNat ht])) pubkey sv pos = none := by
-  have hv := Props.C03.sign_verifies L C.prm fuel _ q aux sg hsign
   obtain ⟨hval, hb⟩ := Schnorr.serialize_ok C.prm sg sig64 hser
   obtain ⟨hr0, hrp, hs0, hsn⟩ := Schnorr.sigValid_range sg hval
   rw [hps, hns] at hb
@@ -89,5 +118,22 @@ theorem sign_passes_checkSchnorr (C : Crypto α) (L : Lawful C.o G) (hps : C.prm
     unfold checkSchnorr
     simp only [h0, if_false, hl65, hg]
     simp [hdef, hb, ht1, ht2, ht3, hsg, hpk, hv, h0]
+
+/-- BIP340: a signature made by `ssa.sign_` with the key `q` over the BIP341 / BIP342 message THE ENGINE recomputes,
+    written as its 64 bytes followed by the hash-type byte unless that is SIGHASH_DEFAULT (`_taproot_signature`),
+    passes `CheckSchnorrSignature` of the composed checker for the 32-byte x-only key of `q·G` -- the output key on the
+    key path (`q` the tweaked private key, C12 `key_agreement`), the leaf key on the script path. -/
+theorem sign_passes_checkSchnorr (C : Crypto α) (L : Lawful C.o G) (hps : C.prm.pSize = 32) (hns : C.prm.nSize = 32)
+    (hp : C.o.p ≤ 2 ^ 256) (hn : C.o.n ≤ 2 ^ 256)
+    (cx : TxCtx) (sv : SigVersion) (ht pos : Nat) (hht : ht < 256)
+    (hdef : bip341Defined cx.tx cx.nIn cx.spent ht = true)
+    (fuel : Nat) (q : Int) (aux : Bytes) (sg : Schnorr.Sig)
+    (hsign : Schnorr.sign C.o C.prm fuel (engineTapDigest C cx sv ht pos) q aux = .ok sg)
+    (sig64 : Bytes) (hser : Schnorr.serialize C.o C.prm sg = .ok sig64)
+    (pubkey : Bytes) (hpk : ((ofBE pubkey : Nat) : Int) = C.o.x (C.o.mul q C.o.gen)) :
+    checkSchnorr C cx (sig64 ++ (if ht = 0 then [] else [UInt8.ofNat ht])) pubkey sv pos = none :=
+  verified_passes_checkSchnorr C hps hns hp hn cx sv ht pos hht hdef _ sg
+    ((Schnorr.verify_eq_true_iff C.prm _ _ _).2 (Schnorr.sign_verifies L C.prm L.ycongr fuel _ q aux sg hsign))
+    sig64 hser pubkey hpk
 
 end Btc.Spend
